@@ -708,6 +708,11 @@ class IkeSa(object):
         cookie = response.get_notifies(PayloadNOTIFY.Type.COOKIE)
         if cookie:
             self.log_warning("COOKIE notification received. Trying including the COOKIE")
+            # the request carries exactly one cookie: replace the one sent before (if any) instead of stacking them,
+            # otherwise a duplicated COOKIE response makes the signed IKE_SA_INIT request differ from the one in use
+            self.request.payloads = [x for x in self.request.payloads
+                                     if not (x.type == Payload.Type.NOTIFY
+                                             and x.notification_type == PayloadNOTIFY.Type.COOKIE)]
             self.request.payloads.insert(0, cookie[0])
             self.ike_sa_init_req_data = self.request.to_bytes()
             self.my_msg_id = 0
